@@ -243,7 +243,15 @@ func (o Outcome) Equal(p Outcome) bool {
 	if (o.Msg == nil) != (p.Msg == nil) {
 		return false
 	}
-	return o.Msg == nil || proto.Equal(o.Msg, p.Msg)
+	if o.Msg == nil {
+		return true
+	}
+	// The two messages may come from different (structurally identical)
+	// compiled worlds, so compare the deterministic wire form.
+	mo := proto.MarshalOptions{Deterministic: true}
+	x, _ := mo.Marshal(o.Msg)
+	y, _ := mo.Marshal(p.Msg)
+	return string(x) == string(y)
 }
 
 // Do issues a body-less request.
